@@ -768,6 +768,20 @@ func (w *World) applyBatch(op Op) ApplyResult {
 				staged[s.Key] = nil
 				order = append(order, s.Key)
 			}
+			if w.Adversarial {
+				// slices returned by Batch.Get are the caller's too: one is kept (it must not change when the key is
+				// staged again), a second one is scribbled over (the staged value must not follow)
+				for _, k := range w.Keys {
+					if v, err := b.Get([]byte(k)); err == nil {
+						w.Keep("Batch.Get("+k+")", v)
+					}
+					if v, err := b.Get([]byte(k)); err == nil {
+						for i := range v {
+							v[i] ^= 0xA5
+						}
+					}
+				}
+			}
 		}
 		committed = true
 		return b.Commit()
